@@ -121,7 +121,7 @@ Section Discipline.
     intros s' Hs'. apply hget_set_other. intro E; subst; auto.
   Qed.
 
-  Lemma A_fresh h : n <= length h -> A (length h).
+  Lemma A_fresh (h : heap) : n <= length h -> A (length h).
   Proof. intro H. apply up. lia. Qed.
 
   (* ---- copy ---- *)
@@ -135,13 +135,13 @@ Section Discipline.
       inversion E; subst.
       assert (W1 : wr h (h ++ [mono_copy (hget h s)])) by now apply wr_alloc.
       destruct (IH _ _ _ (wr_len _ _ W1 Hn) E2) as [W2 F2].
-      split; [eapply wr_trans; eauto|]. constructor; auto. now apply A_fresh.
+      split; [eapply wr_trans; eauto|]. constructor; auto; now apply A_fresh.
   Qed.
 
   Lemma rmk_poly_ok h l h' r : n <= length h -> Forall A l -> rmk_poly h l = (h', r) -> wr h h' /\ Forall A r.
   Proof.
     intros Hn Hl E. destruct l; simpl in E; inversion E; subst.
-    - split; [now apply wr_alloc|]. constructor; auto. now apply A_fresh.
+    - split; [now apply wr_alloc|]. constructor; auto; now apply A_fresh.
     - split; [apply wr_refl | auto].
   Qed.
 
@@ -162,13 +162,13 @@ Section Discipline.
     - inversion E; subst. now apply Forall_rev.
     - inversion Hr; subst.
       destruct (minclusion (hget h m) (hget h mn)).
-      + eapply IH; eauto.
+      + eapply IH; [| |exact E]; auto.
       + inversion E; subst. rewrite rev_append_rev. apply Forall_app. split; [now apply Forall_rev | auto].
       + eapply IH; [| |exact E]; auto.
   Qed.
 
   Lemma rincl_ok h l mn i b i' nl : Forall A l -> rincl h l mn i = (b, i', nl) -> Forall A nl.
-  Proof. intros Hl E. eapply rincl_go_ok; eauto. Qed.
+  Proof. intros Hl E. unfold rincl in E. eapply rincl_go_ok; [exact Hl | constructor | exact E]. Qed.
 
   Lemma radd_tail_ok h rest : forall nl i, Forall A nl -> Forall A rest -> Forall A (radd_tail h nl rest i).
   Proof.
@@ -182,32 +182,33 @@ Section Discipline.
   Lemma radd_loop_ok fuel : forall h nl q i h' r,
     Forall A nl -> Forall A q -> radd_loop fuel h nl q i = Some (h', r) -> wr h h' /\ Forall A r.
   Proof.
-    induction fuel as [|f IH]; intros h nl q i h' r Hnl Hq E; simpl in E; [discriminate|].
+    induction fuel as [|f IH]; intros h nl q i h' r Hnl Hq E; cbn [radd_loop] in E; [discriminate|].
     destruct q as [|mono2 q'].
     - inversion E; subst. split; [apply wr_refl | auto].
     - inversion Hq as [|? ? Hm2 Hq']; subst.
       destruct (rincl h nl mono2 i) as [[tobe i1] nl1] eqn:Ei.
       pose proof (rincl_ok _ _ _ _ _ _ _ Hnl Ei) as Hnl1.
-      destruct tobe; simpl in E.
+      destruct tobe; cbn [negb] in E.
       + destruct (Nat.eqb i1 (length nl1)).
-        * inversion E; subst. split; [apply wr_refl|]. now apply radd_tail_ok.
+        * injection E as <- <-. split; [apply wr_refl|].
+          change (Forall A (radd_tail h nl1 (mono2 :: q') i1)). now apply radd_tail_ok.
         * destruct (nth_error nl1 i1) as [mono1|] eqn:En; [|discriminate].
           destruct (compare (ds (hget h mono1)) (ds (hget h mono2))).
-          -- eapply IH; eauto.
+          -- eapply IH; [| |exact E]; auto.
           -- pose proof (Forall_nth_error _ _ _ _ Hnl1 En) as Hm1.
              destruct (IH _ _ _ _ _ _ Hnl1 Hq' E) as [W F].
              split; auto. eapply wr_trans; [apply wr_set; exact Hm1 | exact W].
           -- eapply IH; [| |exact E]; auto. now apply Forall_list_insert.
-      + eapply IH; eauto.
+      + eapply IH; [| |exact E]; auto.
   Qed.
 
   Lemma rmerge_fuel_ok fuel : forall h l r h' res,
     Forall A l -> Forall A r -> rmerge_fuel fuel h l r = (h', res) -> wr h h' /\ Forall A res.
   Proof.
     induction fuel as [|f IH]; intros h l r h' res Hl Hr E; simpl in E.
-    - inversion E; subst. split; [apply wr_refl|]. apply Forall_app; auto.
-    - destruct l as [|lh lt]; [inversion E; subst; split; [apply wr_refl | apply Forall_app; auto]|].
-      destruct r as [|rh rt]; [inversion E; subst; split; [apply wr_refl | apply Forall_app; auto]|].
+    - injection E as <- <-. split; [apply wr_refl|]. apply Forall_app; split; auto.
+    - destruct l as [|lh lt]; [injection E as <- <-; split; [apply wr_refl | first [assumption | apply Forall_app; split; auto]]|].
+      destruct r as [|rh rt]; [injection E as <- <-; split; [apply wr_refl | first [assumption | apply Forall_app; split; auto]]|].
       inversion Hl as [|? ? Hlh Hlt]; inversion Hr as [|? ? Hrh Hrt]; subst.
       destruct (compare (ds (hget h lh)) (ds (hget h rh))).
       + destruct (rmerge_fuel f h lt (rh :: rt)) as [h1 r1] eqn:E1. inversion E; subst.
@@ -224,7 +225,7 @@ Section Discipline.
   Lemma rsort_fuel_ok fuel : forall h l h' res,
     Forall A l -> rsort_fuel fuel h l = (h', res) -> wr h h' /\ Forall A res.
   Proof.
-    induction fuel as [|f IH]; intros h l h' res Hl E; simpl in E.
+    induction fuel as [|f IH]; intros h l h' res Hl E; cbn [rsort_fuel] in E.
     - inversion E; subst. split; [apply wr_refl | auto].
     - destruct l as [|a [|b t]]; try (inversion E; subst; split; [apply wr_refl | auto]; fail).
       remember (a :: b :: t) as l0.
@@ -242,7 +243,7 @@ Section Discipline.
     intros Hn Hl E. unfold rremove_zeros in E.
     pose proof (Forall_filter A (fun s => negb (is_O (sc (hget h s)))) l Hl) as Hf.
     destruct (filter (fun s => negb (is_O (sc (hget h s)))) l) as [|x t].
-    - simpl in E. inversion E; subst. split; [now apply wr_alloc|]. constructor; auto. now apply A_fresh.
+    - simpl in E. inversion E; subst. split; [now apply wr_alloc|]. constructor; auto; now apply A_fresh.
     - inversion E; subst. split; [apply wr_refl | auto].
   Qed.
 
@@ -288,7 +289,7 @@ Section Discipline.
       destruct (IH _ _ _ _ (wr_len _ _ W1 Hn) E2) as [W2 F2].
       inversion E; subst.
       split; [eapply wr_trans; eauto|].
-      destruct (is_O (sc (hget h1 (length h)))); auto. constructor; auto. now apply A_fresh.
+      destruct (is_O (sc (hget h1 (length h)))); auto; constructor; auto; now apply A_fresh.
   Qed.
 
   Lemma rproducts_ok p q : forall h h' rows, n <= length h -> rproducts h p q = (h', rows) -> wr h h' /\ Forall (Forall A) rows.
@@ -327,8 +328,8 @@ Section Discipline.
     - destruct rows; [inversion E; subst; auto | discriminate].
     - destruct rows as [|row rest]; [inversion E; subst; auto|].
       inversion Hrows as [|? ? Hrow Hrest]; subst.
-      destruct row as [|m tl]; [eapply IH; eauto|].
-      inversion Hrow as [|? ? Hm Htl]; subst.
+      destruct row as [|m tl]; [eapply IH; [| |exact E]; auto|].
+      pose proof (Forall_inv Hrow) as Hm. pose proof (Forall_inv_tail Hrow) as Htl.
       destruct (rincl h result m 0) as [[tobe i'] res1] eqn:Ei.
       pose proof (rincl_ok _ _ _ _ _ _ _ Hres Ei) as H1.
       eapply IH; [| |exact E].
@@ -401,7 +402,8 @@ Section Discipline.
   Proof.
     intros Hn H2 E. unfold rmatrix_sum in E.
     eapply rbuild_ok; [| exact Hn | exact E].
-    intros h0 i j h0' c Hn0 E0. eapply radd_ok; eauto. now apply rmget_ok.
+    intros h0 i j h0' c Hn0 E0. cbv beta in E0.
+    eapply radd_ok; [exact Hn0 | | exact E0]. now apply rmget_ok.
   Qed.
 
   Definition pe_step (m1 m2 : rmatrix) (i j : nat) : heap * rpoly -> nat -> heap * rpoly :=
@@ -421,7 +423,7 @@ Section Discipline.
   Lemma pe_fold_ok m1 m2 i j ks : forall h total h' c,
     n <= length h -> Forall A total -> fold_left (pe_step m1 m2 i j) ks (h, total) = (h', c) -> wr h h' /\ Forall A c.
   Proof.
-    induction ks as [|k t IH]; intros h total h' c Hn Ht E; simpl in E.
+    induction ks as [|k t IH]; intros h total h' c Hn Ht E; cbn [fold_left] in E.
     - inversion E; subst. split; [apply wr_refl | auto].
     - destruct (pe_step m1 m2 i j (h, total) k) as [h1 c1] eqn:E1.
       destruct (pe_step_ok _ _ _ _ _ _ _ _ _ Hn E1) as [W1 F1].
@@ -434,10 +436,12 @@ Section Discipline.
   Proof.
     intros Hne Hn E. unfold rprod_entry in E. fold (pe_step m1 m2 i j) in E.
     destruct m1 as [|r0 rt]; [congruence|].
-    change (length (r0 :: rt)) with (S (length rt)) in E. simpl seq in E. simpl fold_left in E.
+    change (length (r0 :: rt)) with (S (length rt)) in E. cbn [seq fold_left] in E.
     destruct (pe_step (r0 :: rt) m2 i j (h, RZERO) 0) as [h1 c1] eqn:E1.
+    assert (E' : fold_left (pe_step (r0 :: rt) m2 i j) (seq 1 (length rt)) (h1, c1) = (h', c))
+      by (rewrite <- E1; exact E).
     destruct (pe_step_ok _ _ _ _ _ _ _ _ _ Hn E1) as [W1 F1].
-    destruct (pe_fold_ok _ _ _ _ _ _ _ _ _ (wr_len _ _ W1 Hn) F1 E) as [W2 F2].
+    destruct (pe_fold_ok _ _ _ _ _ _ _ _ _ (wr_len _ _ W1 Hn) F1 E') as [W2 F2].
     split; auto. eapply wr_trans; eauto.
   Qed.
 
@@ -483,7 +487,7 @@ Section Discipline.
       destruct (W_BAD (sc (hget h s)) d).
       + destruct (IH _ _ _ _ Ht (Forall_snoc' _ _ _ Hw Hs) E) as [W F].
         split; auto. eapply wr_trans; [apply wr_set; exact Hs | exact W].
-      + eapply IH; eauto.
+      + eapply IH; [| |exact E]; auto.
   Qed.
 
   Definition corr_inv (h0 : heap) (hw : heap * list stamp) : Prop := wr h0 (fst hw) /\ Forall A (snd hw).
@@ -502,7 +506,7 @@ Section Discipline.
   Theorem rwhile_correction_ok h m h' w : MA m -> rwhile_correction h m = (h', w) -> wr h h' /\ Forall A w.
   Proof.
     intros Hm E. unfold rwhile_correction in E.
-    assert (G : corr_inv h (fold_left (fun hw '(i, row) => rw_row i hw row) (combine (seq 0 (length m)) m) (h, []))).
+    match type of E with ?X = _ => assert (G : corr_inv h X) end.
     { apply (fold_left_inv (corr_inv h) (fun ir : nat * list rpoly => Forall (Forall A) (snd ir))).
       - intros hw [i row] Hinv Hrow. now apply rw_row_ok.
       - now apply Forall_combine_snd.
@@ -527,7 +531,7 @@ Section Discipline.
     destruct Hstep as (h1 & w1 & Est & W1 & Hn1 & HW1). rewrite Est.
     destruct (L_PROPAGATE (sc (hget h1 s)) d).
     - unfold halloc.
-      destruct (radd (h1 ++ [mono_copy (hget h1 s)]) (rmget m ell j) [length h1]) as [h3 r] eqn:Ea.
+      match goal with |- context [radd ?a ?b ?c] => destruct (radd a b c) as [h3 r] eqn:Ea end.
       assert (Wc : wr h1 (h1 ++ [mono_copy (hget h1 s)])) by now apply wr_alloc.
       pose proof (wr_len _ _ Wc Hn1) as Hn2.
       assert (Fc : Forall A [length h1]) by (constructor; [now apply A_fresh | constructor]).
@@ -545,8 +549,7 @@ Section Discipline.
     n <= length h -> MA m -> rloop_correction h m ell = (h', m', w) -> wr h h' /\ MA m' /\ Forall A w.
   Proof.
     intros Hn Hm E. unfold rloop_correction in E.
-    assert (G : lc_inv h (fold_left (fun st '(i, j) => let '(_, mc, _) := st in rl_mons ell i j (rmget mc i j) st)
-                                    (rl_cells m) (h, m, []))).
+    match type of E with ?X = _ => assert (G : lc_inv h X) end.
     { apply (fold_left_inv (lc_inv h) (fun _ : nat * nat => True)).
       - intros [[h1 m1] w1] [i j] Hinv _. apply rl_mons_ok; auto.
         destruct Hinv as (_ & _ & HM & _). now apply rmget_ok.
@@ -674,15 +677,136 @@ Definition ex_body : rmatrix := [[[2; 3; 4]; RZERO]; [[5; 6; 7]; RUNIT]].
 
 Example ex_while_runs :
   heap_ok ex_heap /\ valid_in ex_heap ex_body /\
-  exists h2 fx w, rwhile 10 ex_heap 2 ex_body = Some (h2, fx, w) /\ length w = 5 /\
+  exists h2 fx w, rwhile 10 ex_heap 2 ex_body = Some (h2, fx, w) /\ length w = 4 /\
                   In UNIT_ST (mat_stamps ex_body) /\ In ZERO_ST (mat_stamps ex_body).
 Proof.
   split; [repeat split; simpl; lia|].
-  split; [intros s Hs; simpl in Hs; simpl; intuition lia|].
+  split.
+  { intros s Hs. change (In s [2; 3; 4; 0; 5; 6; 7; 1]) in Hs. change (s < 8).
+    simpl in Hs. repeat (destruct Hs as [<-|Hs]; [lia|]). contradiction. }
   vm_compute. eexists; eexists; eexists. split; [reflexivity|].
-  split; [reflexivity|]. split; tauto.
+  split; [reflexivity|]. split; auto 20.
 Qed.
 
 Example ex_for_runs :
   exists h2 fx w, rfor 10 ex_heap 2 ex_body 1 = Some (h2, fx, w) /\ w <> [].
 Proof. vm_compute. eexists; eexists; eexists. split; [reflexivity | discriminate]. Qed.
+
+(* ---------------- statements used by props/C13.v ---------------- *)
+
+Lemma old_not_written h0 (w : list stamp) :
+  (forall s, In s w -> length h0 <= s) ->
+  forall old, valid_in h0 old -> forall s, In s w -> ~ In s (mat_stamps old).
+Proof. intros Hw old V s Hs Hin. specialize (Hw _ Hs). specialize (V _ Hin). lia. Qed.
+
+Lemma heap_ok_keeps h h' : heap_ok h -> (forall s, s < length h -> hget h' s = hget h s) -> length h <= length h' -> heap_ok h'.
+Proof.
+  intros (L & Z & U) K Le. unfold heap_ok, ZERO_ST, UNIT_ST in *.
+  split; [lia|]. split; [rewrite K; auto; lia | rewrite K; auto; lia].
+Qed.
+
+Lemma heap_ok_not_fresh h (w : list stamp) : heap_ok h -> (forall s, In s w -> length h <= s) -> ~ In ZERO_ST w /\ ~ In UNIT_ST w.
+Proof.
+  intros (L & _) Hw. unfold ZERO_ST, UNIT_ST. split; intro Hin; specialize (Hw _ Hin); lia.
+Qed.
+
+Definition loop_discipline (h0 h2 : heap) (fx : rmatrix) (w : list stamp) : Prop :=
+  (forall s, In s w -> length h0 <= s) /\
+  (forall s, In s (mat_stamps fx) -> length h0 <= s) /\
+  (forall old, valid_in h0 old -> forall s, In s w -> ~ In s (mat_stamps old)) /\
+  (forall old, valid_in h0 old -> vmat h2 old = vmat h0 old) /\
+  (forall s, s < length h0 -> hget h2 s = hget h0 s).
+
+Lemma loop_discipline_of h0 h2 fx w :
+  (forall s, In s w -> length h0 <= s) /\
+  (forall s, In s (mat_stamps fx) -> length h0 <= s) /\
+  (forall s, s < length h0 -> hget h2 s = hget h0 s) -> loop_discipline h0 h2 fx w.
+Proof.
+  intros (Hw & Hf & K). unfold loop_discipline. repeat split; auto.
+  - now apply old_not_written.
+  - intros old V. now apply vmat_keeps.
+Qed.
+
+Theorem fresh_mutation : forall fuel h0 k body,
+  (forall h2 fx w, rwhile fuel h0 k body = Some (h2, fx, w) ->
+     (forall s, In s w -> length h0 <= s) /\
+     (forall s, In s (mat_stamps fx) -> length h0 <= s) /\
+     (forall old, valid_in h0 old -> forall s, In s w -> ~ In s (mat_stamps old)) /\
+     (forall old, valid_in h0 old -> vmat h2 old = vmat h0 old) /\
+     (forall s, s < length h0 -> hget h2 s = hget h0 s)) /\
+  (forall ell h2 fx w, rfor fuel h0 k body ell = Some (h2, fx, w) ->
+     (forall s, In s w -> length h0 <= s) /\
+     (forall s, In s (mat_stamps fx) -> length h0 <= s) /\
+     (forall old, valid_in h0 old -> forall s, In s w -> ~ In s (mat_stamps old)) /\
+     (forall old, valid_in h0 old -> vmat h2 old = vmat h0 old) /\
+     (forall s, s < length h0 -> hget h2 s = hget h0 s)).
+Proof.
+  intros fuel h0 k body. split.
+  - intros h2 fx w E. apply (loop_discipline_of h0 h2 fx w). eapply while_fresh; eauto.
+  - intros ell h2 fx w E. apply (loop_discipline_of h0 h2 fx w). eapply for_fresh; eauto.
+Qed.
+
+Lemma prod_keeps h m1 m2 h' r : rmatrix_prod h m1 m2 = (h', r) ->
+  length h <= length h' /\ (forall s, s < length h -> hget h' s = hget h s) /\ (forall s, In s (mat_stamps r) -> length h <= s).
+Proof.
+  intro E.
+  destruct (rmatrix_prod_ok (fresh_from (length h)) (length h) (fresh_up _) _ _ _ _ _ (le_n _) E) as [W F].
+  split; [apply W|]. split; [now apply wr_fresh_keeps | apply (MA_stamps _ _ F)].
+Qed.
+
+Theorem constants_unchanged : forall h0, heap_ok h0 ->
+  (forall fuel k body h2 fx w, rwhile fuel h0 k body = Some (h2, fx, w) ->
+     heap_ok h2 /\ ~ In ZERO_ST w /\ ~ In UNIT_ST w) /\
+  (forall fuel k body ell h2 fx w, rfor fuel h0 k body ell = Some (h2, fx, w) ->
+     heap_ok h2 /\ ~ In ZERO_ST w /\ ~ In UNIT_ST w) /\
+  (forall fuel k body h1 fx, rfixpoint fuel h0 k body = Some (h1, fx) -> heap_ok h1) /\
+  (forall m1 m2 h1 r, rmatrix_prod h0 m1 m2 = (h1, r) -> heap_ok h1) /\
+  (forall p q h1 r, rtimes h0 p q = (h1, r) -> heap_ok h1) /\
+  (forall p q h1 r, radd h0 p q = (h1, r) -> ~ In ZERO_ST q -> ~ In UNIT_ST q -> heap_ok h1).
+Proof.
+  intros h0 Hok.
+  split; [|split; [|split; [|split; [|split]]]].
+  - intros fuel k body h2 fx w H.
+    destruct (while_fresh _ _ _ _ _ _ _ H) as (Hw & Hf & K).
+    split; [|apply (heap_ok_not_fresh _ _ Hok Hw)].
+    eapply heap_ok_keeps; eauto.
+    unfold rwhile in H. destruct (rfixpoint fuel h0 k body) as [[h1 fx1]|] eqn:E1; [|discriminate].
+    destruct (rwhile_correction h1 fx1) as [h2' w'] eqn:E2. inversion H; subst.
+    destruct (rfixpoint_ok (fresh_from (length h0)) (length h0) (fresh_up _) _ _ _ _ _ _ (le_n _) E1) as [[L1 _] F1].
+    destruct (rwhile_correction_ok (fresh_from (length h0)) _ _ _ _ F1 E2) as [[L2 _] _]. lia.
+  - intros fuel k body ell h2 fx w H.
+    destruct (for_fresh _ _ _ _ _ _ _ _ H) as (Hw & Hf & K).
+    split; [|apply (heap_ok_not_fresh _ _ Hok Hw)].
+    eapply heap_ok_keeps; eauto.
+    unfold rfor in H. destruct (rfixpoint fuel h0 k body) as [[h1 fx1]|] eqn:E1; [|discriminate].
+    inversion H as [E2].
+    destruct (rfixpoint_ok (fresh_from (length h0)) (length h0) (fresh_up _) _ _ _ _ _ _ (le_n _) E1) as [W1 F1].
+    pose proof (wr_len _ _ _ _ W1 (le_n _)) as Hn1.
+    destruct (rloop_correction_ok (fresh_from (length h0)) (length h0) (fresh_up _) _ _ _ _ _ _ Hn1 F1 E2) as ([L2 _] & _).
+    destruct W1 as [L1 _]. lia.
+  - intros fuel k body h1 fx H.
+    destruct (fixpoint_fresh _ _ _ _ _ _ H) as (_ & L & K). eapply heap_ok_keeps; eauto.
+  - intros m1 m2 h1 r H.
+    destruct (prod_keeps _ _ _ _ _ H) as (L & K & _). eapply heap_ok_keeps; eauto.
+  - intros p q h1 r H.
+    destruct (times_fresh _ _ _ _ _ H) as (L & K & _). eapply heap_ok_keeps; eauto.
+  - intros p q h1 r H Hz Hu.
+    destruct (add_frame _ _ _ _ _ H) as (L & K & _).
+    destruct Hok as (L0 & Z & U). unfold heap_ok, ZERO_ST, UNIT_ST in *.
+    split; [lia|]. split; [rewrite K; auto; lia | rewrite K; auto; lia].
+Qed.
+
+(* the analysis model is a Gallina function: its value at any position of any history of calls is its value alone *)
+Lemma history_independent {X Y} (run : X -> Y) (pre post : list X) x :
+  nth_error (map run (pre ++ x :: post)) (length pre) = Some (run x).
+Proof.
+  rewrite map_app, nth_error_app2; rewrite map_length; auto.
+  now rewrite Nat.sub_diag.
+Qed.
+
+Require PM.Analysis.
+
+Theorem model_is_function : forall (pre post : list (PM.Analysis.func_src * bool)) f stop,
+  nth_error (map (fun c => PM.Analysis.analyse (fst c) (snd c)) (pre ++ (f, stop) :: post)) (length pre)
+  = Some (PM.Analysis.analyse f stop).
+Proof. intros. apply (history_independent (fun c => PM.Analysis.analyse (fst c) (snd c)) pre post (f, stop)). Qed.
